@@ -209,7 +209,10 @@ def quote_atom(t):
 
 class Whitelist(ast.NodeVisitor):
     OK = (ast.Module, ast.FunctionDef, ast.arguments, ast.arg, ast.For, ast.If, ast.Assign, ast.Expr, ast.Yield, ast.Return, ast.Break, ast.Pass,
-          ast.Call, ast.Name, ast.Constant, ast.List, ast.Load, ast.Store)
+          ast.Call, ast.Name, ast.Constant, ast.List, ast.Load, ast.Store,
+          # control flow / boolean structure a different but equally harmless code generator might use
+          ast.While, ast.Continue, ast.Try, ast.ExceptHandler, ast.BoolOp, ast.And, ast.Or, ast.UnaryOp, ast.Not, ast.Compare, ast.Is, ast.IsNot,
+          ast.Eq, ast.NotEq, ast.Tuple, ast.YieldFrom, ast.AugAssign, ast.Add, ast.Sub)
 
     def __init__(self):
         self.problems = []
